@@ -522,6 +522,32 @@ theorem NaiveTime_leap_off_59_reads_as_next_second (t : Time) (ht : TValid t) (h
 example : TValid ⟨45240, 1500000000⟩ ∧ (45240 : Int) % 60 ≠ 59 ∧
     timeText ⟨45241, 500000000⟩ = asciiBytes "12:34:01.500" := by decide +kernel
 
+/-- **outside the side condition "whole-minute offset"**: a `FixedOffset` with a seconds part prints
+`±hh:mm:ss`, and `FixedOffset::from_str` — which does not look at what follows the minutes — returns
+the offset truncated (toward zero) to a whole minute: never the value itself.  Universal over all
+169 920 such offsets. -/
+theorem FixedOffset_with_seconds_reads_truncated (off : Int) (h : -86400 < off ∧ off < 86400)
+    (hs : off % 60 ≠ 0) :
+    offset_debug off = (if off < 0 then 45 else 43) ::
+      (decN 2 (off.natAbs / 3600) ++ [58] ++ decN 2 (off.natAbs / 60 % 60) ++ [58] ++ decN 2 (off.natAbs % 60)) ∧
+    offset_display off = offset_debug off ∧
+    offset_from_str (offset_debug off) =
+      .ok (if off < 0 then -((off.natAbs : Int) - (off.natAbs : Int) % 60)
+           else (off.natAbs : Int) - (off.natAbs : Int) % 60) ∧
+    offset_from_str (offset_debug off) ≠ .ok off := by
+  have hr := TextFormsMore.offset_with_seconds_reads_truncated off h hs
+  refine ⟨?_, rfl, hr, ?_⟩
+  · rw [TextFormsMore.offset_debug_with_seconds off h hs, decN_two _ (by omega), decN_two _ (by omega),
+      decN_two _ (by omega)]
+    simp only [List.append_assoc, List.cons_append, List.nil_append]
+  · rw [hr]
+    intro he
+    injection he with he
+    split at he <;> omega
+
+example : offset_debug 19815 = asciiBytes "+05:30:15" ∧ offset_debug (-61) = asciiBytes "-00:01:01" := by
+  decide +kernel
+
 /-- **DateTime<FixedOffset> with a lower-case `t`**: for every value of the round-trip domain the wall
 clock written with `t` between date and time, followed by the offset, reads back as the value -/
 theorem DateTime_FixedOffset_reads_lowercase_t (z : Zoned) (hz : ZInv z) (hm : WholeMinute z.off)
@@ -634,7 +660,7 @@ theorem print_shape_fraction (nano : Nat) (_h : nano < 1000000000) :
     · rw [h'.1]; norm_num; omega
     · rw [h']; norm_num
   · intro k hk hz
-    unfold fracDigits
+    unfold Text.fracDigits
     rcases hk with rfl | rfl | rfl | rfl <;> norm_num at hz <;> repeat' split
     all_goals omega
 
